@@ -24,6 +24,7 @@ def main():
     base = os.path.realpath(base)
     mounted = []
     extra_dirs = []
+    shallow_links = set()
     realisation = 'same-device'
     try:
         # one skeleton per boundary position k: tmpfs mounted on the directory at depth k (1-based), 0 = none
@@ -101,9 +102,14 @@ def main():
             if c.get('via_link'):
                 # the start directory is given through a symbolic link that lives elsewhere
                 serial += 1
-                ld = os.path.join(base, 'links')
-                os.makedirs(ld, exist_ok=True)
-                lp = os.path.join(ld, 'L%d' % (serial % 40))
+                if serial % 2:
+                    ld = os.path.join(base, 'links')
+                    os.makedirs(ld, exist_ok=True)
+                    lp = os.path.join(ld, 'L%d' % (serial % 40))
+                else:
+                    # a link that is lexically much shallower than the directory it names (beside the scratch directory itself)
+                    lp = base + '.L%d' % (serial % 40)
+                    shallow_links.add(lp)
                 if os.path.lexists(lp):
                     os.unlink(lp)
                 os.symlink(start, lp)
@@ -185,6 +191,11 @@ def main():
         for m in reversed(mounted):
             subprocess.run(['umount', '-l', m], stderr=subprocess.DEVNULL)
         shutil.rmtree(base, ignore_errors=True)
+        for lp in shallow_links:
+            try:
+                os.unlink(lp)
+            except OSError:
+                pass
         for d in extra_dirs:
             shutil.rmtree(d, ignore_errors=True)
 
